@@ -81,3 +81,141 @@ fn min_oldest_vlog_enum() {
 	);
 	assert!(failures.is_empty());
 }
+
+/// C07 bounded check (end to end, real Tree on disk): whatever level shape a small workload of sets,
+/// hard deletes, flushes and compaction rounds produces, the store closes, REOPENS without error, reads
+/// back exactly the committed state, accepts a new commit that wins over everything recovered, and
+/// reopens again (also with a larger and with a smaller level_count).
+/// Bound (stated): programs of <= `maxlen` operations from {set k0..k2, delete k0..k2, flush, compact},
+/// level_count in {2, 3}; maxlen 3 in the quick tier, 4 in the thorough tier.
+#[derive(Clone, Copy, Debug, PartialEq)]
+enum ROp {
+	Set(u8),
+	Del(u8),
+	Flush,
+	Compact,
+}
+
+async fn reopen_enum_impl(maxlen: usize, name: &str) {
+	use crate::compaction::leveled::Strategy;
+	use crate::TreeBuilder;
+	let mut alpha = Vec::new();
+	for k in 0..3u8 {
+		alpha.push(ROp::Set(k));
+		alpha.push(ROp::Del(k));
+	}
+	alpha.push(ROp::Flush);
+	alpha.push(ROp::Compact);
+	let mut cases = 0u64;
+	let mut nontrivial = 0u64;
+	let mut failures: Vec<String> = Vec::new();
+	let mut samples: Vec<String> = Vec::new();
+	for level_count in [2u8, 3] {
+		for len in 1..=maxlen {
+			for code in 0..alpha.len().pow(len as u32) {
+				let mut ops = Vec::new();
+				let mut x = code;
+				for _ in 0..len {
+					ops.push(alpha[x % alpha.len()]);
+					x /= alpha.len();
+				}
+				cases += 1;
+				let dir = tempdir::TempDir::new("verif_c07").unwrap();
+				let mut model: [Option<Vec<u8>>; 3] = [None, None, None];
+				let mut bad: Option<String> = None;
+				{
+					let (tree, opts) = TreeBuilder::new().with_path(dir.path().to_path_buf()).with_level_count(level_count).build_with_options().unwrap();
+					let mut o = (*opts).clone();
+					o.level0_max_files = 1;
+					let strat = Arc::new(Strategy::from_options(Arc::new(o)));
+					for (i, op) in ops.iter().enumerate() {
+						match *op {
+							ROp::Set(k) => {
+								let v = format!("v{i}").into_bytes();
+								let mut t = tree.begin().unwrap();
+								t.set(vec![b'k', b'0' + k], v.clone()).unwrap();
+								t.commit().await.unwrap();
+								model[k as usize] = Some(v);
+							}
+							ROp::Del(k) => {
+								let mut t = tree.begin().unwrap();
+								t.delete(vec![b'k', b'0' + k]).unwrap();
+								t.commit().await.unwrap();
+								model[k as usize] = None;
+							}
+							ROp::Flush => { let _ = tree.flush(); }
+							ROp::Compact => { let _ = tree.compact(strat.clone()); }
+						}
+					}
+					if let Err(e) = tree.close().await {
+						bad = Some(format!("close failed: {e}"));
+					}
+				}
+				let structural = ops.iter().filter(|o| matches!(o, ROp::Flush | ROp::Compact)).count();
+				if structural >= 1 && ops.iter().any(|o| matches!(o, ROp::Del(_))) {
+					nontrivial += 1;
+					if samples.len() < 3 && len == maxlen && structural >= 2 {
+						samples.push(format!("\"level_count={level_count} {:?}\"", ops));
+					}
+				}
+				// reopen (same configuration), read back, commit again, reopen with another level_count
+				for (round, lc) in [level_count, level_count, level_count + 1, level_count - 1].iter().enumerate() {
+					if bad.is_some() {
+						break;
+					}
+					match TreeBuilder::new().with_path(dir.path().to_path_buf()).with_level_count(*lc).build() {
+						Err(e) => bad = Some(format!("reopen #{round} (level_count {lc}) failed: {e}")),
+						Ok(tree) => {
+							{
+								let r = tree.begin().unwrap();
+								for k in 0..3u8 {
+									let got = r.get(vec![b'k', b'0' + k]).unwrap();
+									if got != model[k as usize] && bad.is_none() {
+										bad = Some(format!("after reopen #{round}: key k{k} reads {:?}, committed state is {:?}", got, model[k as usize]));
+									}
+								}
+							}
+							// a commit made after reopening must be ordered after everything recovered
+							let v = format!("post{round}").into_bytes();
+							let mut t = tree.begin().unwrap();
+							t.set(vec![b'k', b'0'], v.clone()).unwrap();
+							if let Err(e) = t.commit().await {
+								bad = Some(format!("commit after reopen #{round} failed: {e}"));
+							}
+							model[0] = Some(v.clone());
+							let r = tree.begin().unwrap();
+							if r.get(vec![b'k', b'0']).unwrap() != Some(v) && bad.is_none() {
+								bad = Some(format!("commit made after reopen #{round} is shadowed by recovered data"));
+							}
+							drop(r);
+							if let Err(e) = tree.close().await {
+								bad = Some(format!("close after reopen #{round} failed: {e}"));
+							}
+						}
+					}
+				}
+				if let Some(b) = bad {
+					if failures.len() < 5 {
+						failures.push(format!("{{\"level_count\":{level_count},\"program\":\"{:?}\",\"mismatch\":{:?}}}", ops, b));
+					}
+				}
+			}
+		}
+	}
+	println!(
+		"REPLAY-RESULT {{\"driver\":\"levels::{name}\",\"cases\":{cases},\"distinct_nontrivial\":{nontrivial},\"samples\":[{}],\"failures\":[{}]}}",
+		samples.join(","),
+		failures.join(",")
+	);
+	assert!(failures.is_empty());
+}
+
+#[tokio::test(flavor = "multi_thread", worker_threads = 2)]
+async fn reopen_enum_quick() {
+	reopen_enum_impl(3, "reopen_enum_quick").await;
+}
+
+#[tokio::test(flavor = "multi_thread", worker_threads = 2)]
+async fn reopen_enum_thorough() {
+	reopen_enum_impl(4, "reopen_enum_thorough").await;
+}
